@@ -182,8 +182,15 @@ func (search *Search) alphaBeta(aPosGen *Generator, targetDepth, depth, alpha, b
 }
 
 func updateKillerMoves(currPly int16, move Move) {
-	killerMoves[currPly][1] = killerMoves[currPly][0]
-	killerMoves[currPly][0] = move
+	slot := killerSlot(currPly)
+	killerMoves[slot][1] = killerMoves[slot][0]
+	killerMoves[slot][0] = move
+}
+
+// Index into killerMoves for a game ply. Games (or FEN move numbers) beyond killerMovesMaxPly plies
+// reuse the slots cyclically instead of running off the end of the table.
+func killerSlot(ply int16) int {
+	return int(uint16(ply)) % killerMovesMaxPly
 }
 
 func (search *Search) startAlphaBeta(aPosGen *Generator, targetDepth int, currBestLine *[]Move,
